@@ -110,8 +110,11 @@ def oracle(ctx, text, must):
         if o is not None and not any(o == r for r in res):
             ctx.violation("incomplete:v%s-delimited-vector-missed" % ver, "a valid delimited vector in the text is not returned",
                           text, piece, [r.vector for r in res], replay=rp)
+    ORDERED[text] = ["%s=%s" % x for x in out]
     return sorted(set("%s=%s" % x for x in out))
 
+
+ORDERED = {}      # text -> result in the order returned (auxiliary tie: first-occurrence order, which C19/C20 rely on)
 
 FIXED = ["", "AV:N/AC:L/Au:N/C:P/I:P/A:P", "xAV:N/AC:L/Au:N/C:P/I:P/A:P", "CVSS:3.1/AV:N/AC:L/PR:N/UI:N/S:U/C:H/I:H/A:H",
          "(CVSS:3.0/AV:N/AC:L/PR:N/UI:N/S:U/C:H/I:H/A:H)", "CVSS:3.1/AV:N/AC:L/PR:N/UI:N/S:U/C:H/I:H/A:H AV:N/AC:L/Au:N/C:P/I:P/A:P",
@@ -162,6 +165,11 @@ def run(ctx):
                 ms = None
             if ms != impl_sets[i]:
                 ctx.disagree("model-vs-code:parse_cvss_from_text", t, mo[:300], repr(impl_sets[i])[:300])
+            elif ms is not None and t in ORDERED:
+                mo_ord = ["=".join(x.split("=")[:2]) for x in body.split(";") if x]
+                if mo_ord != ORDERED[t]:
+                    ctx.aux("model-vs-code:parse_cvss_from_text:order-of-first-occurrence", t, repr(mo_ord)[:300], repr(ORDERED[t])[:300])
+        ORDERED.clear()
 
 
 def replay(data):
